@@ -505,7 +505,25 @@ pub fn render_item(it: &Item, o: &RenderOpts, rng: &mut Rng, out: &mut String) {
     for b in blocks {
         out.push_str(&b);
     }
-    let gens = if it.generics.is_empty() { String::new() } else { format!("<{}>", it.generics.join(", ")) };
+    // a quarter of the generic items (chosen by their name, not by the random stream) declare defaults for their trailing or
+    // for all of their type parameters (`<T, U = String>`): a parameter with a default is a parameter like any other
+    let gens = if it.generics.is_empty() {
+        String::new()
+    } else {
+        let h = it.ident.bytes().map(|b| b as usize).sum::<usize>();
+        let n = it.generics.len();
+        let ps: Vec<String> = it
+            .generics
+            .iter()
+            .enumerate()
+            .map(|(i, g)| match (o.vary, h % 8) {
+                (true, 0) if i == n - 1 => format!("{g} = String"),
+                (true, 1) => format!("{g} = u32"),
+                _ => g.clone(),
+            })
+            .collect();
+        format!("<{}>", ps.join(", "))
+    };
     match &it.kind {
         Kind::Struct(fs) => {
             out.push_str(&format!("{ind}pub struct {}{} {{\n", it.ident, gens));
